@@ -16,6 +16,9 @@ CHECKS = {
     'C13': dict(tech=SYMX, ref='3/C13',
                 text='An interpreter applies operation sequences (depth 1-3 over + - * / with scalar / bare array / MatrixArray / length-1 MatrixArray operands, in and out of place, dot, @, @=, invert in/out of place, get_copy, keyed assignment, setMatrix) to the real MatrixArray / IdentityMatrixArray with symbolic data and to a plain-loop reference model; after every step the solver proves every entry equal to the model for all data, A.dot(A.invert())=I under det!=0, and identity/memory-sharing facts (operands untouched, results share no memory, in-place returns self) are checked; all 3x3 space-flag pairs x 12 binary operations enumerated; keyed access incl. unknown names. Bounded: rank 1-3 (4-5 without inverse in thorough), length 1-3.',
                 note='Trusted: numpy object-array semantics (einsum, broadcasting, in-place ops), z3. np.linalg.inv is an adjugate stub in symbolic mode (differential-tested); the inverse claim is decided independently as a product identity.'),
+    'C15': dict(tech=SYMX, ref='3/C15',
+                text='Every assignment history up to the stated depth (each step assigns one type or any list of types, density and diameter, with fresh symbolic positive values; re-assignments included) is executed on the real Density/Diameter objects; after every step the solver proves pair=rho_a*rho_b, site, total=sum of assigned, sigma=(d_a+d_b)/2, volume=pi*d^3/6 and the reads Diameter[a], Diameter[a,b] for all values, and check() raises exactly while a type is unassigned. Bounded: 1-4 types, depth 1-3 (see evidence bounds).',
+                note='Trusted: numpy object arrays, z3. Histories longer than the bound are outside (the finite part of the state is enumerated, values are symbolic).'),
 }
 
 NOT_YET = {}
